@@ -482,3 +482,30 @@ func init() {
 		},
 	})
 }
+
+func c06Variant(label, options string) *Prop {
+	return &Prop{Label: label, Pkg: "zzgen/c06/cm", NoOverlay: true, Diff: []string{"D_C06_1"},
+		Harnesses: []Harness{
+			{Func: "H_C06_consts", Covers: []string{"end"}},
+			{Func: "H_C06_new", Covers: []string{"end"}},
+			{Func: "H_C06_isset", Covers: []string{"end", "oi-set", "oi-unset"}},
+		},
+		Prepare: func(r *runner) error {
+			return prepareStatic(r, "c06gen", []string{"main.thrift", "inc.thrift"}, "go", options, "c06/cm")
+		}}
+}
+
+func init() {
+	register(&Prop{
+		ID:        "C06",
+		Functions: []string{"generated package init (constants and variables), NewX, InitDefault, GetX, IsSetX for main.thrift/inc.thrift of harness/c06gen", "generator/golang/resolver.go (exercised through its output)"},
+		Bounds:    "38 constants covering every way of writing a value (literal, identifier, qualified identifier, enum by name/number/bare member, int for double, 0/1 for bool, both quote kinds, nested list/set/map literals, struct literals incl. partial and across includes) and a struct with 25 fields (defaults of every category incl. constant references and included enums); IsSet/getter semantics for EVERY value of each optional field with a default (full-width symbolic); configurations: default, enum_as_int_32, naming styles",
+		Assumptions: []string{"constant initialisers contain no free variable: that part is a degenerate (one path) encoding", "expected values are written by hand from the IDL's rules (docs/string-literals-in-the-IDL.md)", "the programs dimension is this one designed program"},
+		Variants: []*Prop{
+			c06Variant("default", ""),
+			c06Variant("enum_as_int_32", "enum_as_int_32"),
+			c06Variant("golint", "naming_style=golint"),
+			c06Variant("apache", "naming_style=apache"),
+		},
+	})
+}
